@@ -24,14 +24,19 @@ Pair(tc) == [k |-> IF tc[2] = 0 THEN "none" ELSE "pair", v |-> IF tc[2] = 0 THEN
 AvgStep(Ao, e) ==
     IF e.ev = "call"
     THEN V(TRUE, [Ao EXCEPT !.call[e.c] = [op |-> e.op, v |-> e.v, st |-> "open", cand |-> {Pair(Ao.tc)}, exp |-> Pair(<<0, 0>>)]], "")
+    ELSE IF e.ev = "commit" /\ e.tc = <<-9, -9>>
+    THEN V(TRUE, Ao, "")                  \* a commit on another shard of a sharded cache: it does not hold the pair
     ELSE IF e.ev = "commit"
     THEN LET cl == Ao.call[e.c] IN
          IF cl.op = "add"
-         THEN IF e.tc # <<Ao.tc[1] + cl.v, Ao.tc[2] + 1>>
+         THEN IF e.tc = Ao.tc
+              THEN V(TRUE, Ao, "")          \* a commit that changes nothing (another shard of a sharded cache's transaction)
+              ELSE IF cl.st # "open" \/ e.tc # <<Ao.tc[1] + cl.v, Ao.tc[2] + 1>>
               THEN V(FALSE, Ao, "C20 the commit of add(" \o ToString(cl.v) \o ") published " \o ToJson(e.tc) \o
                                 " but the pair committed just before was " \o ToJson(Ao.tc) \o " (lost update)")
               ELSE V(TRUE, [Ao EXCEPT !.tc = e.tc,
-                       !.call = [c \in DOMAIN Ao.call |-> IF Ao.call[c].op \in {"get"} THEN [Ao.call[c] EXCEPT !.cand = @ \cup {Pair(e.tc)}] ELSE Ao.call[c]]], "")
+                       !.call = [c \in DOMAIN Ao.call |-> IF c = e.c THEN [Ao.call[c] EXCEPT !.st = "committed"]
+                                                          ELSE IF Ao.call[c].op \in {"get"} THEN [Ao.call[c] EXCEPT !.cand = @ \cup {Pair(e.tc)}] ELSE Ao.call[c]]], "")
          ELSE IF cl.op = "pop"
          THEN IF e.tc # <<0, 0>> THEN V(FALSE, Ao, "C20 pop did not remove the accumulated pair")
               ELSE V(TRUE, [Ao EXCEPT !.tc = <<0, 0>>, !.call[e.c].exp = Pair(Ao.tc), !.call[e.c].st = "committed",
@@ -41,7 +46,9 @@ AvgStep(Ao, e) ==
     ELSE IF e.ev = "ret"
     THEN LET cl == Ao.call[e.c]
              Aq == [Ao EXCEPT !.call[e.c] = NoCall]
-         IN IF cl.op = "get" /\ e.ret \notin cl.cand
+         IN IF cl.op = "add" /\ cl.st # "committed" /\ e.ret.k = "none"
+            THEN V(FALSE, Ao, "C20 add returned without committing its value")
+            ELSE IF cl.op = "get" /\ e.ret \notin cl.cand
             THEN V(FALSE, Ao, "C20 get returned " \o ToJson(e.ret) \o " but the mean of the completed adds was one of " \o ToJson(cl.cand))
             ELSE IF cl.op = "pop" /\ cl.st = "committed" /\ e.ret # cl.exp
             THEN V(FALSE, Ao, "C20 pop returned " \o ToJson(e.ret) \o " expected " \o ToJson(cl.exp))
